@@ -297,6 +297,52 @@ const LONG_POOL: &[&str] = &[
 ];
 const SHORT_POOL: &[&str] = &["", "a", "fifteen-bytes-x", "éééééé", "std", "DUMMY", "tuples", "_t3"];
 
+/// Profile "incremental": GC cycles as a client runs them — a mark phase that marks most live
+/// handles, then a sweep phase in slices of 1-2 slots until the cursor wraps, with marks on random
+/// live handles (before and behind the cursor) and occasional allocations between slices — the
+/// schedules in which "marked since the sweeper last passed over it" matters.
+struct Incremental {
+  marking: Vec<Value>,
+}
+
+impl Incremental {
+  fn next(&mut self, x: &Exec, rng: &mut Rng, longs: &[&str], step: usize) -> Value {
+    if x.counter_active() {
+      return json!({"op": "SyncCounter"});
+    }
+    if step < 3 + rng.below(3) {
+      return json!({"op": "AllocString", "s": longs[rng.below(longs.len())]});
+    }
+    if let Some(h) = self.marking.pop() {
+      return json!({"op": "Mark", "h": h});
+    }
+    let cursor = verif_hooks::dump(&x.heap).sweep_index;
+    if cursor == 0 && rng.chance(2, 3) {
+      // start of a pass: mark phase first (most live handles, in random order)
+      let mut live = x.live_handles();
+      live.retain(|_| rng.chance(4, 5));
+      for i in (1..live.len()).rev() {
+        live.swap(i, rng.below(i + 1));
+      }
+      if let Some(h) = live.pop() {
+        self.marking = live;
+        return json!({"op": "Mark", "h": h});
+      }
+    }
+    let k = rng.below(100);
+    if k < 30 {
+      let live = x.live_handles();
+      if !live.is_empty() {
+        return json!({"op": "Mark", "h": live[rng.below(live.len())]});
+      }
+    }
+    if k < 40 {
+      return json!({"op": "AllocString", "s": longs[rng.below(longs.len())]});
+    }
+    json!({"op": "Sweep", "w": 1 + rng.below(2)})
+  }
+}
+
 fn random_op(x: &Exec, rng: &mut Rng, longs: &[&str], shorts: &[&str]) -> Value {
   let pick_str = |rng: &mut Rng| -> String {
     if rng.below(4) == 0 {
@@ -417,8 +463,14 @@ pub fn drive(args: &[String]) {
     if r > 0 {
       writeln!(f, "{}", json!({"ev": "Reset"})).unwrap();
     }
-    for _ in 0..len {
-      let op = random_op(&x, &mut rng, &longs, &shorts);
+    let incremental = r % 2 == 1;
+    let mut inc = Incremental { marking: vec![] };
+    for step in 0..len {
+      let op = if incremental {
+        inc.next(&x, &mut rng, &longs, step)
+      } else {
+        random_op(&x, &mut rng, &longs, &shorts)
+      };
       if let Some(ev) = x.exec(&op) {
         writeln!(f, "{}", ev).unwrap();
         events += 1;
